@@ -202,6 +202,62 @@ theorem C07_qval_exact_in_order (strict : Bool) (cap icap : Nat) (st : State) (i
       rw [a] at b; cases b
   · exact e
 
+/-- Clients arriving in timestamp order are appended: if the new item's `qval` is not
+    `Before` its would-be parent's, `heap.Push` leaves all earlier slots in place and puts the
+    new id in the last slot (so for increasing timestamps the heap array is the insertion
+    order — the closed form the capacity-regime driver starts from). -/
+theorem C07_push_in_order_appends (st : State) (h : WF st) (id : Nat) (it : Item)
+    (hnone : st.items.find id = none)
+    (hle : st.heap.size = 0 ∨ before it.qval (kv st ((st.heap.size - 1) / 2)) = false) :
+    (push { st with items := (id, it) :: st.items } id).heap = st.heap.push id := by
+  unfold push
+  simp only
+  have hkold : ∀ i, i < st.heap.size → hkey st i ≠ id := by
+    intro i hi e
+    have := h.fwd i hi
+    rw [e] at this; unfold pos at this; rw [hnone] at this; cases this
+  have hk : ∀ x, x < st.heap.size →
+      kv { items := setQidx ((id, it) :: st.items) id st.heap.size, heap := st.heap.push id } x
+        = kv st x := by
+    intro x hx
+    have hkx : hkey
+        { items := setQidx ((id, it) :: st.items) id st.heap.size, heap := st.heap.push id } x
+          = hkey st x := by
+      unfold hkey
+      simp only [Array.getD_eq_getD_getElem?, Array.getElem?_push]
+      have : ¬ x = st.heap.size := by omega
+      simp [this]
+    unfold kv
+    rw [hkx]
+    show qv (setQidx ((id, it) :: st.items) id st.heap.size) (hkey st x) = qv st.items (hkey st x)
+    rw [← qv_same (same_setQidx ((id, it) :: st.items) id st.heap.size)]
+    unfold qv
+    rw [Map.find_cons, if_neg (Ne.symm (hkold x hx))]
+  have hkn : kv { items := setQidx ((id, it) :: st.items) id st.heap.size, heap := st.heap.push id }
+      st.heap.size = it.qval := by
+    have hkx : hkey
+        { items := setQidx ((id, it) :: st.items) id st.heap.size, heap := st.heap.push id }
+          st.heap.size = id := by
+      unfold hkey; simp [Array.getD_eq_getD_getElem?]
+    unfold kv
+    rw [hkx]
+    show qv (setQidx ((id, it) :: st.items) id st.heap.size) id = it.qval
+    rw [← qv_same (same_setQidx ((id, it) :: st.items) id st.heap.size)]
+    unfold qv
+    rw [Map.find_cons, if_pos rfl]
+  unfold up
+  simp only
+  rcases hle with h0 | hb
+  · simp [h0]
+  · by_cases h0 : st.heap.size = 0
+    · simp [h0]
+    · have hp : (st.heap.size - 1) / 2 < st.heap.size := by omega
+      have : less { items := setQidx ((id, it) :: st.items) id st.heap.size, heap := st.heap.push id }
+          st.heap.size ((st.heap.size - 1) / 2) = false := by
+        unfold less
+        rw [hkn, hk _ hp]; exact hb
+      simp [this]
+
 theorem evict_spec (cap icap : Nat) (hcap : 1 ≤ cap) (st : State) (inv : Inv0 PT cap icap st) (rxt64 : T64) :
     ((evict cap st rxt64).2 = none ∧ (evict cap st rxt64).1 = st ∧
         ¬ (st.items.length = cap ∧ after (kv st 0) rxt64 = false)) ∨
